@@ -464,13 +464,37 @@ def r5_copy_on_partial(repo: Repo, rep):
         rep.check(R, good, dc.site(), dc.fq, "setattr(copy, k, copy.deepcopy(v, memo)) for every (k, v) in self.__dict__", detail, detail)
     # __call__ / evaluate_function write nothing on self (allow-list: device move of a constant tensor)
     allow = {("DomainUserFunction", "evaluate_function", "self.fun"): "device move of a constant tensor: same values"}
-    for ci in (uf, duf):
+    wrappers = [uf] + [c for c in repo.subclasses(uf, strict=True)]
+    for ci in wrappers:
+        # every override of partially_evaluate hands the given values on unfiltered: a value given for an optional name must win over its default
+        pe2 = ci.methods.get("partially_evaluate")
+        if pe2 is not None and ci is not uf:
+            rep.saw(pe2)
+            kw2 = pe2.node.args.kwarg.arg if pe2.node.args.kwarg else None
+            sup = [c for c in ast.walk(pe2.node) if isinstance(c, ast.Call) and isinstance(c.func, ast.Attribute) and c.func.attr == "partially_evaluate" and dump(c.func.value).startswith("super(")]
+            for c in sup:
+                stars = [dump(k.value) for k in c.keywords if k.arg is None]
+                rebound = any(isinstance(a, ast.Assign) and any(isinstance(t, ast.Name) and t.id == kw2 for t in a.targets) for a in ast.walk(pe2.node))
+                rep.check(R, kw2 is not None and stars == [kw2] and not rebound and not c.args and not [k for k in c.keywords if k.arg is not None], pe2.site(c), pe2.fq,
+                          f"super().partially_evaluate(**{kw2}) receives every given value", dump(c)[:80], f"{ci.name}.partially_evaluate forwards {stars}")
+    for ci in wrappers:
         for mname in ("__call__", "evaluate_function", "apply_to_batch"):
             fi = ci.methods.get(mname)
             if fi is None:
                 continue
             rep.saw(fi)
             writes = []
+            # the assembled keyword mapping reaches the user's function as it is: no re-binding / rewriting of the ** parameter
+            kw3 = fi.node.args.kwarg.arg if fi.node.args.kwarg else None
+            if kw3 is not None:
+                for a in ast.walk(fi.node):
+                    if isinstance(a, (ast.Assign, ast.AugAssign)):
+                        for t in (a.targets if isinstance(a, ast.Assign) else [a.target]):
+                            base = t
+                            while isinstance(base, ast.Subscript):
+                                base = base.value
+                            if isinstance(base, ast.Name) and base.id == kw3:
+                                writes.append((f"**{kw3}", dump(a.value)[:60]))
             for p in paths(fi.node):
                 for e in p.events:
                     if e.kind in ("attr", "aug") and e.target is not None and dump(e.target).startswith("self."):
